@@ -74,6 +74,7 @@ GENERATORS = [
     ("gen_leaf", "miniconf/src/leaf.rs", "Leaf.lean"),
     ("gen_py", ("py/miniconf-mqtt/miniconf/async_.py", "py/miniconf-mqtt/miniconf/sync.py",
                 "py/miniconf-mqtt/miniconf/common.py"), "Py.lean"),
+    ("gen_transcode", ("miniconf/src/node.rs", "miniconf/src/jsonpath.rs"), "Transcode.lean"),
 ]
 
 
